@@ -757,8 +757,11 @@ var (
 	vfSigUncoveredKinds = []string{"unsigned-header", "ignored-header-value", "framing", "header-order", "query-order"}
 )
 
+// vfSigLabel names the class of a signature variant. A valid request with a non-empty signed body
+// and a pure body tampering share the one label "sig:signed-body", so that the defect around the
+// drained body has exactly two keys; every other variant keeps its own label.
 func vfSigLabel(kind string, cfg vfSigCfg, r *vfC06Req) string {
-	if !cfg.ExcludeBody && len(r.Body) > 0 {
+	if !cfg.ExcludeBody && len(r.Body) > 0 && (kind == "base-valid" || kind == "resign-valid" || kind == "body") {
 		return "sig:signed-body"
 	}
 	return "sig:" + kind
@@ -1444,7 +1447,7 @@ func TestVerifC06SigV4Cross(t *testing.T) {
 			m, k := vfSigTamper(rt, s, kinds)
 			cv, _ := s.vfSigVerdict(&m)
 			lab := "sigx:" + k
-			if !c.ExcludeBody && len(m.Body) > 0 {
+			if !c.ExcludeBody && len(m.Body) > 0 && k == "body" {
 				lab = "sig:signed-body" // the one class of the signed-body defect
 			}
 			x := vfVariant{Label: lab, Req: m, Hdr: vfAccept, Cred: cv}
